@@ -28,7 +28,10 @@ ASSUMPTIONS = [
 ]
 TRUSTED = ['numpy view(uintN) as the bit pattern of an element']
 DTYPES = ['float16', 'float32', 'float64', 'int8', 'int16', 'int32', 'int64', 'uint8', 'uint16', 'uint32', 'uint64']
+# the three after 'sp ace.jpg' are NOT in unicode composed form (e + combining acute as macOS tools write it, ANGSTROM SIGN,
+# OHM SIGN) and 'caf\u00e9.jpg' is the composed twin of the first: distinct names, distinct files
 NAMES = ['a.jpg', 'dir/sub dir/img.v2.png', 'ünï/çödé.jpg', 'cam0/000.jpg', 'x', 'a.b.c.d', 'deep/1/2/3/4/f.jpeg', 'sp ace.jpg',
+         'cafe\u0301.jpg', 'caf\u00e9.jpg', '\u212b/ngstr\u00f6m.png', 'ohm \u2126.jpg',
          'over.lapping/x.jpg', 'im.overlappingX/y.jpg']
 KINDS = ['keypoints', 'descriptors', 'global_features']
 
@@ -50,7 +53,7 @@ def gen_array(rng):
             bits[rng.randrange(len(bits))] = rng.choice(specials)
     return {'op': 'array', 'dtype': dt, 'rows': rows, 'cols': cols, 'bits': bits,
             'layout': rng.choice(['c', 'f', 'strided', 'bigendian']), 'storage': rng.choice(['file', 'tar', 'depth']), 'rewrite': rng.choice([False, True, True, 'longer']),
-            'kind': rng.choice(KINDS), 'image': rng.choice(NAMES[:8])}
+            'kind': rng.choice(KINDS), 'image': rng.choice(NAMES[:12])}
 
 
 def cases(rng, tier):
@@ -61,8 +64,8 @@ def cases(rng, tier):
     for nme in NAMES:
         for k in KINDS:
             out.append({'op': 'fpath', 'kind': k, 'type': rng.choice(['sift', 'r2d2_WASF-N8_20k']), 'image': nme})
-    for a in NAMES[:8]:
-        for b in NAMES[:8]:
+    for a in NAMES[:12]:
+        for b in NAMES[:12]:
             if a != b:
                 out.append({'op': 'mpath', 'type': 'sift', 'a': a, 'b': b})
     return out
